@@ -78,12 +78,13 @@ type World struct {
 	timers []*vtimer
 	tseq   uint64
 
-	aborting  bool
-	initiator *Thread
-	finished  bool
-	exited    chan struct{}
-	doneCh    chan struct{}
-	out       Outcome
+	aborting    bool
+	closeOnExit bool
+	initiator   *Thread
+	finished    bool
+	exited      chan struct{}
+	doneCh      chan struct{}
+	out         Outcome
 
 	closed   []unsafe.Pointer // channels closed in this execution (slice, not map: see race_on.go)
 	covered  []covEntry
@@ -156,7 +157,10 @@ func (w *World) stopNow() {
 	me := w.cur
 	w.teardown(me)
 	me.done = true
-	close(w.doneCh)
+	// doneCh is closed by the outermost deferred handler of this thread (newThread), i.e. only after the program's own
+	// deferred calls of this thread have run under the still-installed, aborting world — otherwise they could leak
+	// into the next execution.
+	w.closeOnExit = true
 	runtime.Goexit()
 }
 
@@ -200,6 +204,9 @@ func (w *World) newThread(name string, f func()) *Thread {
 				// either this thread is being unwound by teardown, or it initiated the teardown itself
 				if t != w.initiator {
 					w.exited <- struct{}{}
+				} else if w.closeOnExit {
+					w.closeOnExit = false
+					close(w.doneCh)
 				}
 				return
 			}
